@@ -1,11 +1,52 @@
-import PyresampleModel.Model.Core
+import PyresampleModel.Model.C02
 
 /-
-  C05 — model (stub: not built yet).
+  C05 — the dask/xarray nearest-neighbour path: `query_no_distance` (re-expansion of the per-valid-target
+  query result to the full target block with -1 for "nothing") and `_my_index` (gather through the
+  compacted valid sources, fill where the index is -1).
 -/
 namespace PyresampleModel.C05
 
+/-- `query_no_distance` after the kd-tree call, for one target block: `good = index < kdtree.n`,
+`res[voi & good] = index`, `-1` elsewhere -/
+def expandIdx (n : Nat) (voi : List Bool) (q : List Nat) : List Int :=
+  scatter (-1 : Int) voi (q.map (fun i => if i < n then (i : Int) else -1))
+
+/-- dask `blockwise` over target blocks: each block is expanded on its own and the results are concatenated -/
+def expandBlocks (n : Nat) (blocks : List (List Bool × List Nat)) : List Int :=
+  blocks.flatMap (fun b => expandIdx n b.1 b.2)
+
+/-- `_my_index` for one non-geographic slice: `data[vii][ia]`, fill where `ia == -1` -/
+def myIndex {α} (ia : List Int) (vii : List Bool) (data : List α) (fill : α) : List α :=
+  let newData := compact data vii
+  ia.map (fun i => if i = -1 then fill else newData.getD i.toNat fill)
+
+/-- data with extra leading dims: `_my_index` is applied to every non-geographic slice separately -/
+def myIndexND {α} (ia : List Int) (vii : List Bool) (slices : List (List α)) (fill : α) : List (List α) :=
+  slices.map (fun d => myIndex ia vii d fill)
+
+/-! ### driver -/
+open Wire
+
 def handle : List String → Option String
+  | "xr" :: fill :: n :: rest => do
+    -- xr <fill> <n_tree> <n> vii… <n> data… <nblocks> (<m> voi… <k> q…)*
+    let fill ← int? fill; let n ← nat? n
+    let (vii, tl) ← takeList bool? rest
+    let (data, tl) ← takeList int? tl
+    let nb ← nat? (← tl.head?)
+    let rec blocks : Nat → List String → Option (List (List Bool × List Nat))
+      | 0, [] => some []
+      | 0, _ => none
+      | k + 1, toks => do
+        let (voi, t1) ← takeList bool? toks
+        let (q, t2) ← takeList nat? t1
+        let more ← blocks k t2
+        some ((voi, q) :: more)
+    let bs ← blocks nb tl.tail
+    if vii.length ≠ data.length then none else
+    if bs.any (fun b => b.2.length ≠ b.1.count true) then some "err:shape" else
+    some (showList toString (myIndex (expandBlocks n bs) vii data fill))
   | _ => none
 
 end PyresampleModel.C05
